@@ -397,6 +397,32 @@ def const_flag_locals(body, flow):
     return res
 
 
+def derived_flag_locals(body, flow, flags):
+    """bool locals whose every definition is a plain copy/move of a constant-flag local."""
+    res = {}
+    for l, ty in enumerate(body.locals):
+        if ty != "bool" or l in flags or l in flow.partial or l <= body.arg_count:
+            continue
+        ds = flow.defs.get(l, [])
+        if not ds:
+            continue
+        srcs = set()
+        ok = True
+        for (bb, idx, kind, node) in ds:
+            if kind != "assign":
+                ok = False
+                break
+            rv = node["rv"]
+            if rv["k"] == "use" and rv["op"]["k"] in ("copy", "move") and not rv["op"]["place"]["p"] and rv["op"]["place"]["l"] in flags:
+                srcs.add(rv["op"]["place"]["l"])
+            else:
+                ok = False
+                break
+        if ok:
+            res[l] = srcs
+    return res
+
+
 def feasible_cfg(body, flow):
     """Forward propagation of constant flag values; returns (succ_map, state_in) where succ_map[b] is
     the list of normal successors of b that are feasible under some reaching flag valuation.
@@ -840,3 +866,118 @@ def must_pass_flags(body, flow, src, dsts, via, avoid=()):
         return True
     visited, hits = flag_search(body, flow, src, stop=set(via) | set(avoid))
     return not (visited & set(dsts))
+
+
+# ---------------------------------------------------------------------- sensitive path enumeration
+
+def sensitive_paths(body, flow, loop_visits=2, max_paths=200000, start=0):
+    """Enumerate normal entry->return paths that are feasible w.r.t. constant flags (and plain copies of
+    them) and enum-variant knowledge, visiting each block at most `loop_visits` times.
+    Yields (kind, path, knowledge) where knowledge[i] is the dict place_str -> variant known at entry of
+    path[i] on this path, kind in {"return", "diverge"}."""
+    flags = const_flag_locals(body, flow)
+    derived = derived_flag_locals(body, flow, flags)
+    labels = {bb: flow.edge_labels(bb) for bb in range(body.n) if body.term(bb)["k"] == "switch"}
+    BOTH = frozenset((0, 1))
+
+    def kill(v, local):
+        pre = "_%d" % local
+        return {p: x for p, x in v.items() if _base_local(p) != pre}
+
+    out = []
+    stack = [(start, [start], [dict()], {}, {}, {start: 1})]
+    while stack:
+        bb, path, know, st, vk, cnt = stack.pop()
+        st = dict(st)
+        vk = dict(vk)
+        for s in body.stmts(bb):
+            if s["k"] == "assign" and not s["place"]["p"]:
+                l = s["place"]["l"]
+                if l in flags:
+                    st[l] = frozenset((int(s["rv"]["op"]["bits"]) & 1,))
+                elif l in derived:
+                    src = s["rv"]["op"]["place"]["l"]
+                    st[l] = st.get(src, BOTH)
+                vk = kill(vk, l)
+        t = body.term(bb)
+        outs = []
+        if t["k"] == "return":
+            out.append(("return", path, know))
+        elif t["k"] == "switch" and t["discr"]["k"] in ("copy", "move") and not t["discr"]["place"]["p"] \
+                and (t["discr"]["place"]["l"] in flags or t["discr"]["place"]["l"] in derived):
+            fl_ = t["discr"]["place"]["l"]
+            vals = st.get(fl_, BOTH)
+            tv = {int(v): tgt for v, tgt in t["targets"]}
+            for v in vals:
+                st2 = dict(st)
+                st2[fl_] = frozenset((v,))
+                outs.append((tv.get(v, t["otherwise"]), st2, vk))
+        elif t["k"] == "switch" and bb in labels and any(l[0] in ("variant", "notvariants") for ls in labels[bb].values() for l in ls):
+            for tgt in body.normal_succ(bb):
+                labs = [l for l in labels[bb].get(tgt, []) if l[0] in ("variant", "notvariants")]
+                feasible = not labs
+                vk2 = dict(vk)
+                for lab in labs:
+                    p = place_str(lab[3])
+                    known = vk.get(p)
+                    if lab[0] == "variant":
+                        if known is None or known == lab[2]:
+                            feasible = True
+                            if len(labs) == 1 and lab[2] is not None:
+                                vk2[p] = lab[2]
+                    else:
+                        if known is None or known not in lab[2]:
+                            feasible = True
+                if feasible:
+                    outs.append((tgt, st, vk2))
+        else:
+            vk2 = vk
+            if t["k"] == "call" and not t["dest"]["p"]:
+                vk2 = kill(vk, t["dest"]["l"])
+            succs = body.normal_succ(bb)
+            if not succs and t["k"] != "return":
+                out.append(("diverge", path, know))
+            for s in succs:
+                outs.append((s, st, vk2))
+        for tgt, st2, vk2 in outs:
+            if cnt.get(tgt, 0) >= loop_visits:
+                continue
+            c2 = dict(cnt)
+            c2[tgt] = c2.get(tgt, 0) + 1
+            stack.append((tgt, path + [tgt], know + [vk2], st2, vk2, c2))
+        if len(out) > max_paths:
+            raise RuntimeError("sensitive_paths explosion in %s" % body.path)
+    return out
+
+
+# ---------------------------------------------------------------------- per-path evaluation
+
+class PathEval(Flow):
+    """Expressions evaluated along one concrete CFG path: every local resolves to its latest definition on the
+    path (so multi-definition locals such as `upper` in size_hint get a definite expression per path)."""
+
+    def __init__(self, body, path):
+        Flow.__init__(self, body)
+        self.path = path
+        self.env = {}
+        self._run()
+
+    def _run(self):
+        b = self.b
+        for bb in self.path:
+            for s in b.stmts(bb):
+                if s["k"] == "assign" and not s["place"]["p"]:
+                    self.env[s["place"]["l"]] = self.rvalue_expr(s["rv"], bb)
+                elif s["k"] == "assign" and s["place"]["p"] and not any(e["k"] == "deref" for e in s["place"]["p"]):
+                    # field-wise initialisation of a local aggregate: keep as unknown-but-present
+                    self.env.setdefault(s["place"]["l"], ("unknown",))
+            t = b.term(bb)
+            if t["k"] == "call" and not t["dest"]["p"]:
+                self.env[t["dest"]["l"]] = self.call_expr(t, bb)
+
+    def local_expr(self, local, depth=0):
+        if local in self.env:
+            return self.env[local]
+        if 0 < local <= self.b.arg_count:
+            return ("param", local)
+        return ("unknown",)
